@@ -22,6 +22,9 @@ type Candidate struct {
 	Sig    string          `json:"sig"`    // shape of the observed failure
 	Case   json.RawMessage `json:"case"`   // what to re-execute
 	Detail string          `json:"detail"` // human readable: expected vs observed
+	// Hist: earlier requests of the same executor (kept in memory for the first
+	// candidate of a group only; written to the replay file when needed).
+	Hist [][]byte `json:"-"`
 }
 
 // Finding is one entry of known_findings.json.
@@ -102,6 +105,9 @@ func (r *Run) Fail(c Candidate) {
 	k := c.Class + "\x00" + c.Sig
 	if _, ok := r.cands[k]; !ok {
 		r.order = append(r.order, k)
+	}
+	if len(r.cands[k]) > 0 {
+		c.Hist = nil // only the first candidate of a group keeps its history
 	}
 	if len(r.cands[k]) < 5 {
 		r.cands[k] = append(r.cands[k], c)
@@ -215,7 +221,17 @@ func (r *Run) Finish() int {
 		if known {
 			continue
 		}
-		if ok, why := Reproduce(c); !ok {
+		ok, why := Reproduce(c)
+		withHist := false
+		if !ok && len(c.Hist) > 0 {
+			// perhaps it depends on what the same process executed before (state the library keeps between calls)
+			if ok2, why2 := ReproduceWithHistory(c); ok2 {
+				ok, why, withHist = true, why2, true
+				c.Sig += "(after-earlier-cases-in-one-process)"
+				c.Detail += "\nThe disagreement shows only after the earlier cases executed by the same process (kept in the replay file): the library keeps state between calls."
+			}
+		}
+		if !ok {
 			r.infra = append(r.infra, fmt.Sprintf("candidate class=%s sig=%s did not reproduce in a fresh executor (%s): %s", c.Class, c.Sig, why, c.Detail))
 			fmt.Fprintln(os.Stderr, "INFRA:", r.infra[len(r.infra)-1])
 			continue
@@ -223,8 +239,16 @@ func (r *Run) Finish() int {
 		violations++
 		h := sha1.Sum([]byte(k + string(c.Case)))
 		path := filepath.Join(Root, "out", "replay", fmt.Sprintf("%s-%x.json", r.ID, h[:6]))
-		b, _ := json.MarshalIndent(map[string]any{"property": r.ID, "family": c.Family, "class": c.Class,
-			"sig": c.Sig, "detail": c.Detail, "case": c.Case, "seed": r.Seed, "tier": r.Tier}, "", " ")
+		rep := map[string]any{"property": r.ID, "family": c.Family, "class": c.Class,
+			"sig": c.Sig, "detail": c.Detail, "case": c.Case, "seed": r.Seed, "tier": r.Tier}
+		if withHist {
+			var hs []string
+			for _, h := range c.Hist {
+				hs = append(hs, string(h))
+			}
+			rep["history"] = hs
+		}
+		b, _ := json.MarshalIndent(rep, "", " ")
 		os.WriteFile(path, b, 0o644)
 		fmt.Printf("VIOLATION property=%s replay=%s\n", r.ID, path)
 		det := c.Detail
